@@ -505,7 +505,7 @@ class Registers:
             print('unpredictable')
         spsr = self.get_spsr()
         if bit_at(bytemask, 3):
-            spsr = set_substring(spsr, 31, 27, substring(value, 31, 27))
+            spsr = set_substring(spsr, 31, 24, substring(value, 31, 24))
         if bit_at(bytemask, 2):
             spsr = set_substring(spsr, 19, 16, substring(value, 19, 16))
         if bit_at(bytemask, 1):
